@@ -78,7 +78,10 @@ pub fn exec(case: &Value) -> Vec<Value> {
         let p = dir.join(format!("f{k}.jsonl"));
         let mut s = String::new();
         for l in 0..*n {
-            let text = format!("w{}x{} {} {} {} {}", k, l, VOCAB[(k + l) % 8], VOCAB[(3 * l + 1) % 8], VOCAB[(l * l + k) % 8], VOCAB[(5 * k + l + 2) % 8]);
+            // the last word is a compound that is not a key of the misspellings file while two or three of its parts are
+            // (realistic spelling corruption then chooses among the parts)
+            let text = format!("w{}x{} {} {} {} {} {}-{}-{}", k, l, VOCAB[(k + l) % 8], VOCAB[(3 * l + 1) % 8], VOCAB[(l * l + k) % 8], VOCAB[(5 * k + l + 2) % 8],
+                               VOCAB[(k + l) % 3], VOCAB[(k + l + 1) % 3], VOCAB[(2 * l + k) % 3]);
             s.push_str(&format!("{{\"input\": \"{text}\"}}\n"));
             corpus.push_str(&text);
             corpus.push('\n');
